@@ -5,8 +5,11 @@ package main
 import (
 	"crypto/sha1"
 	"fmt"
+	"go/ast"
+	"go/token"
 	"go/types"
 	"regexp"
+	"sort"
 	"strconv"
 	"strings"
 
@@ -409,47 +412,121 @@ func typeStr(t types.Type) string {
 }
 
 // renamedLocal: the contract names a local variable that no longer exists
-// under that name. If the contract declares its type (`local name T`) and the
-// function has exactly one local of that type that the contract does not
-// otherwise name, the clause is read with that variable (a renamed local must
-// not raise an alarm; a wrong guess can only make a proof fail, never pass).
+// under that name (see localRenames).
 func (x *Exec) renamedLocal(env *Env, name string) (Val, bool) {
 	if x.c == nil || x.c.Locals == nil || env.st == nil {
 		return Val{}, false
 	}
-	want, ok := x.c.Locals[name]
+	to, ok := x.localRenames()[name]
 	if !ok {
 		return Val{}, false
 	}
-	params := map[string]bool{}
-	if x.fn != nil {
-		for _, p := range x.fn.Params {
-			params[p.Name()] = true
-		}
-		for _, p := range x.fn.FreeVars {
-			params[p.Name()] = true
-		}
-	}
-	var cands []string
-	for k, v := range env.vars {
-		if _, declared := x.c.Locals[k]; declared || params[k] || k == "result" || strings.HasPrefix(k, "range") || strings.HasPrefix(k, "result") {
-			continue
-		}
-		ty := v.Ty
-		if v.Ref != nil {
-			if pt, ok := v.RefTy.Underlying().(*types.Pointer); ok {
-				ty = pt.Elem()
-			}
-		}
-		if typeStr(ty) == want {
-			cands = append(cands, k)
-		}
-	}
-	if len(cands) != 1 {
+	if _, present := env.vars[to]; !present {
 		return Val{}, false
 	}
-	x.trusted["contract names local `"+name+"`, which no longer exists: read as the only other local of type "+want+", `"+cands[0]+"`"] = true
-	return x.trIdent(env, cands[0]), true
+	return x.trIdent(env, to), true
+}
+
+func nthPermutation(a []string, k int) []string {
+	a = append([]string(nil), a...)
+	var out []string
+	for len(a) > 0 {
+		f := 1
+		for i := 2; i < len(a); i++ {
+			f *= i
+		}
+		i := k / f
+		k %= f
+		out = append(out, a[i])
+		a = append(a[:i], a[i+1:]...)
+	}
+	return out
+}
+
+// localRenames maps each local that the contract declares (`local name T`)
+// and that no longer exists to the current local it is read as: the declared
+// locals of type T that are missing and the current locals of type T that the
+// contract does not declare are paired in source order, provided there are
+// equally many of each. A renamed local must not raise an alarm; a wrong
+// pairing can only make a proof fail, never pass (clauses are proved, not
+// assumed).
+func (x *Exec) localRenames() map[string]string {
+	if x.renames != nil {
+		return x.renames
+	}
+	x.renames = map[string]string{}
+	if x.c == nil || x.fn == nil || len(x.c.Locals) == 0 {
+		return x.renames
+	}
+	type lv struct {
+		name string
+		ty   string
+		pos  token.Pos
+	}
+	seen := map[string]bool{}
+	var cur []lv
+	for _, b := range x.fn.Blocks {
+		for _, in := range b.Instrs {
+			d, ok := in.(*ssa.DebugRef)
+			if !ok {
+				continue
+			}
+			id, ok := d.Expr.(*ast.Ident)
+			if !ok || id.Name == "_" {
+				continue
+			}
+			v, isVar := d.Object().(*types.Var)
+			if !isVar || v.IsField() || seen[id.Name] {
+				continue
+			}
+			seen[id.Name] = true
+			cur = append(cur, lv{id.Name, typeStr(v.Type()), v.Pos()})
+		}
+	}
+	for _, p := range x.fn.Params {
+		seen[p.Name()] = true
+	}
+	sort.Slice(cur, func(i, j int) bool { return cur[i].pos < cur[j].pos })
+	params := map[string]bool{}
+	for _, p := range x.fn.Params {
+		params[p.Name()] = true
+	}
+	byTypeMissing := map[string][]string{}
+	for _, n := range x.c.LocalsOrd {
+		if !seen[n] {
+			byTypeMissing[x.c.Locals[n]] = append(byTypeMissing[x.c.Locals[n]], n)
+		}
+	}
+	byTypeNew := map[string][]string{}
+	for _, l := range cur {
+		if _, declared := x.c.Locals[l.name]; declared || params[l.name] {
+			continue
+		}
+		byTypeNew[l.ty] = append(byTypeNew[l.ty], l.name)
+	}
+	x.renameChoices = 1
+	perm := x.renamePerm
+	for _, ty := range sortedKeys(byTypeMissing) {
+		miss := byTypeMissing[ty]
+		if nw := byTypeNew[ty]; len(nw) == len(miss) {
+			// the k-th permutation of the new names of this type (k = 0: source order)
+			nfact := 1
+			for i := 2; i <= len(nw); i++ {
+				nfact *= i
+			}
+			if nfact > 24 {
+				nfact = 1
+			}
+			nw = nthPermutation(nw, perm%nfact)
+			perm /= nfact
+			x.renameChoices *= nfact
+			for i := range miss {
+				x.renames[miss[i]] = nw[i]
+				x.trusted["contract names local `"+miss[i]+"`, which no longer exists: read as `"+nw[i]+"` (same type "+ty+", same position among the locals of that type)"] = true
+			}
+		}
+	}
+	return x.renames
 }
 
 func (x *Exec) nilOf(env *Env, t types.Type) Term {
